@@ -31,11 +31,22 @@ def run_inventory(C, R, entries, audit, rule="r1", stop=(), label="", ignore_fns
     inv0, seen, parent, g = P.inventory(C, [e for e in entries if e not in missing], stop)
     inv = {}
     C._match_renames()
+    def norm_key(key):
+        # `index &<container type>` keys carry a type text that panics.short_ty cuts at 90 characters *before* parameter names are
+        # normalised; compare such keys on a prefix that is the same whatever the generic parameter is called
+        k = norm_lt(key)
+        return k[:70] if k.startswith("index ") else k
     for (fn, key), nodes in inv0.items():
         # a function recognised as a rename / move of a reference-tree function is keyed by its reference path: its audit entries
         # and known-finding keys hold
-        inv.setdefault((C._new_to_old.get(fn, fn), norm_lt(key)), []).extend(nodes)
-    audit = {(norm_lt(fn), norm_lt(key)): v for (fn, key), v in audit.items()}
+        inv.setdefault((C._new_to_old.get(fn, fn), norm_key(key)), []).extend(nodes)
+    audit0, audit = audit, {}
+    for (fn, key), v in audit0.items():
+        k2 = (norm_lt(fn), norm_key(key))
+        if k2 in audit:            # two entries that differ only beyond the compared prefix: their sites are counted together
+            audit[k2] = (audit[k2][0] + v[0], audit[k2][1], audit[k2][2])
+        else:
+            audit[k2] = v
     R.units["%sreachable_functions" % label] = len(seen)
     R.units["%sinventory_keys" % label] = len(inv)
     R.units["%sinventory_sites" % label] = sum(len(v) for v in inv.values())
